@@ -243,21 +243,7 @@ func (g *Gateway) queryHandler(w http.ResponseWriter, r *http.Request) {
 				}, nil
 			}
 
-			// a variable which client leaves out takes the default value declared by the operation,
-			// sub-requests declare variables without defaults
-			for _, vd := range operation.VariableDefinitions {
-				if _, ok := request.Variables[vd.Variable]; ok || vd.DefaultValue == nil {
-					continue
-				}
-				value, err := vd.DefaultValue.Value(nil)
-				if err != nil {
-					continue
-				}
-				if request.Variables == nil {
-					request.Variables = make(map[string]interface{})
-				}
-				request.Variables[vd.Variable] = value
-			}
+			setDefaultVariables(request, operation)
 
 			planningContext := &planner.PlanningContext{
 				Request:    request,
@@ -313,6 +299,24 @@ func (g *Gateway) queryHandler(w http.ResponseWriter, r *http.Request) {
 	// emit the response
 	results.Emit(w, rs.IsBatchMode)
 
+}
+
+// setDefaultVariables gives a variable which client leaves out the default value declared by the operation,
+// sub-requests declare variables without defaults
+func setDefaultVariables(request *requests.Request, operation *ast.OperationDefinition) {
+	for _, vd := range operation.VariableDefinitions {
+		if _, ok := request.Variables[vd.Variable]; ok || vd.DefaultValue == nil {
+			continue
+		}
+		value, err := vd.DefaultValue.Value(nil)
+		if err != nil {
+			continue
+		}
+		if request.Variables == nil {
+			request.Variables = make(map[string]interface{})
+		}
+		request.Variables[vd.Variable] = value
+	}
 }
 
 func (g *Gateway) parseIntrospectionQuery(plan *planner.QueryPlan, request *requests.Request) *Result {
